@@ -52,6 +52,19 @@ func scenariosC07() []*scenario {
 			sc.legacyCache = true
 		}},
 	}
+	// reads of the deduplication cache (either table) may fail: a failed lookup is
+	// an error for the submitter, never a miss
+	shapes = append(shapes,
+		sh{"legacy-cache-read-faults", 2, [][]string{{}, {}}, [][]string{{"base-0", "b"}, {"base-1"}}, func(sc *scenario) {
+			sc.cacheFromBase = true
+			sc.legacyCache = true
+			sc.cacheFaults = true
+			sc.opt = options{}
+		}},
+		sh{"cache-read-faults", 0, [][]string{{}, {}, {}}, [][]string{{"a", "a"}, {"a"}}, func(sc *scenario) {
+			sc.cacheFaults = true
+			sc.opt = options{}
+		}})
 	if thorough {
 		shapes = append(shapes, sh{"three-submitters", 0, [][]string{{}, {}, {}}, [][]string{{"a"}, {"a"}, {"b", "a"}}, nil})
 	}
